@@ -369,12 +369,11 @@ func (g *generator) writeGoExpression(n parser.TemplateFileGoExpression) (err er
 	lineSlice := strings.Split(v, "\n")
 	lastLine := lineSlice[len(lineSlice)-1]
 	if strings.HasPrefix(lastLine, "//") {
-		if _, err = g.w.WriteIndent(0, "\n"); err != nil {
+		// A comment on the last line belongs to the declaration that follows: no blank line.
+		if r, err = g.w.WriteIndent(0, "\n"); err != nil {
 			return err
 		}
-		return err
-	}
-	if r, err = g.w.WriteIndent(0, "\n\n"); err != nil {
+	} else if r, err = g.w.WriteIndent(0, "\n\n"); err != nil {
 		return err
 	}
 
